@@ -14,7 +14,7 @@ func init() {
 	register(&propertyDef{
 		id:    "C01",
 		title: "every run terminates with one output or an error",
-		rules: []ruleFunc{c01R1, c01R2, c01R3, c01R4, c01R5, c01R6, c01R7, c01R8, c01R9, c01R10, c01R11, c01R12, c01R13, c01R14},
+		rules: []ruleFunc{c01R1, c01R2, c01R3, c01R4, c01R5, c01R6, c01R7, c01R8, c01R9, c01R10, c01R11, c01R12, c01R13, c01R14, c01R15},
 		decided: "the deadlock-freedom and single-hand-over disciplines termination depends on: single guarded send of the workflow output under the run lock (R1); " +
 			"no blocking channel operation, Wait or Sleep while the run lock or a step lock is held, error reports non-blocking (R2); lock order run-lock -> step-lock only, " +
 			"no handler callback under a step lock, no Close/Wait under a lock (R3); Execute registers the terminate-all teardown on every path after the first step start (R4); " +
@@ -1061,4 +1061,82 @@ func (c *Ctx) isExecuteOrOwned(fn *ssa.Function) bool {
 		}
 	}
 	return false
+}
+
+// C01.R15 the detector runs after every notification that finishes a stage.
+func c01R15(c *Ctx) {
+	const rule = "C01.R15"
+	c.explain("C01.R15 onStageComplete calls checkForDeadlocks, and the only condition on that call is that the notification has a previous stage (`previousStage != nil`): R9 relies on the detector running with every stage change and every completion. A step that starts to wait for an input that can never arrive does so with a stage CHANGE, not a completion; if only completions triggered the detector and that change were the last event of the run, nothing would ever look at the step states again and Execute would block forever")
+	fn := c.Fn("(*workflow.loopState).onStageComplete")
+	if fn == nil {
+		return
+	}
+	var prev *ssa.Parameter
+	for _, p := range fn.Params[1:] {
+		if pt, ok := p.Type().Underlying().(*types.Pointer); ok && prev == nil {
+			if bt, ok := pt.Elem().Underlying().(*types.Basic); ok && bt.Kind() == types.String {
+				prev = p
+			}
+		}
+	}
+	if prev == nil {
+		c.unresolved("previous-stage parameter of onStageComplete")
+		return
+	}
+	isPrev := func(v ssa.Value) bool {
+		return derivesFrom(v, func(x ssa.Value) bool {
+			if x == ssa.Value(prev) {
+				return true
+			}
+			if fv, ok := x.(*ssa.FreeVar); ok {
+				if cell := capturedCell(fv); cell != nil {
+					if sv := soleStore(cell); sv == ssa.Value(prev) {
+						return true
+					}
+				}
+			}
+			if u, ok := x.(*ssa.UnOp); ok {
+				if fv, ok := u.X.(*ssa.FreeVar); ok {
+					if cell := capturedCell(fv); cell != nil && soleStore(cell) == ssa.Value(prev) {
+						return true
+					}
+				}
+			}
+			return false
+		})
+	}
+	n := 0
+	for _, body := range c.logicalBody(fn) {
+		eachInstr(body, func(r instrRef) {
+			cc := callCommon(r.I)
+			if cc == nil {
+				return
+			}
+			callee := cc.StaticCallee()
+			if callee == nil || funcSimpleName(callee) != "checkForDeadlocks" {
+				return
+			}
+			n++
+			var other []string
+			for _, t := range body.Blocks {
+				ifi, isIf := t.Instrs[len(t.Instrs)-1].(*ssa.If)
+				if !isIf {
+					continue
+				}
+				for succ := 0; succ < 2; succ++ {
+					if !edgeDominates(t, succ, r.Block) {
+						continue
+					}
+					b, isB := ifi.Cond.(*ssa.BinOp)
+					if isB && (b.Op == token.NEQ || b.Op == token.EQL) && isNilConst(b.Y) && isPrev(b.X) {
+						continue
+					}
+					other = append(other, c.instrPos(ifi))
+				}
+			}
+			c.verdict(len(other) == 0, rule, fmt.Sprintf("detector-call#%d", n), c.instrPos(r.I), "the detector runs whenever the notification has a previous stage",
+				"the call of checkForDeadlocks in onStageComplete depends on a further condition ("+strings.Join(other, ", ")+"): some stage notifications no longer trigger the detection, and a run whose last event is such a notification never ends")
+		})
+	}
+	c.minCount(rule, "calls of checkForDeadlocks in onStageComplete", n, 1)
 }
